@@ -15,7 +15,7 @@ CORE_FUNCS = ["sum", "nanmax", "mean", "argmax", "nanfirst", "median", "first", 
 ENGINES = [None, "numpy", "flox", "numba", "numbagg"]
 METHODS = [None, "map-reduce", "cohorts", "blockwise"]
 REINDEX = [None, True, False]
-LABELKIND = ["numpy", "dask"]
+LABELKIND = ["numpy", "dask", "dask-labels-numpy-array"]
 NDIM = [1, 2, 3]
 AXIS = ["all", "last"]
 EXPECTED = [True, False]
@@ -74,8 +74,10 @@ def run_cell(cell, variant=0):
     full_chunks = (((2,) if variant == 0 else (1, 1)),) * (cell["ndim"] - 1) + (chunks,)
     arr = da.from_array(vals, chunks=full_chunks)
     by = labels
-    if cell["labelkind"] == "dask":
+    if cell["labelkind"].startswith("dask"):
         by = da.from_array(labels, chunks=full_chunks[-labels.ndim:])
+    if cell["labelkind"] == "dask-labels-numpy-array":
+        arr = vals           # in-memory data grouped by chunked labels: still the graph path
     kw = {"func": cell["func"], "engine": cell["engine"], "method": cell["method"], "reindex": cell["reindex"]}
     if cell["expected"]:
         kw["expected_groups"] = np.arange(4)
@@ -100,7 +102,7 @@ def run_cell(cell, variant=0):
             return out
         out["computes_during_call"] = rs.calls
         out["lazy"] = isinstance(res, da.Array) and all(isinstance(g, (np.ndarray, da.Array)) or hasattr(g, "dtype") for g in groups)
-        out["groups_lazy_when_unknown"] = isinstance(groups[0], da.Array) if (cell["labelkind"] == "dask" and not cell["expected"]) else None
+        out["groups_lazy_when_unknown"] = isinstance(groups[0], da.Array) if (cell["labelkind"].startswith("dask") and not cell["expected"]) else None
         try:
             with dask.config.set(scheduler="sync"):
                 r, g = dask.compute(res, groups)
